@@ -42,7 +42,7 @@ func TestC27(t *testing.T) {
 			var cfg []any
 			for _, e := range vt.List(c["cfg"]) {
 				m := vt.Map(e)
-				var pats []string
+				pats := []string{}
 				for _, p := range vt.List(m["tenants"]) {
 					pats = append(pats, pre+join(p))
 				}
